@@ -360,12 +360,22 @@ def exch_capacity(d, db):
 
 
 @st.composite
-def surf(draw, eq_sol, balanced):
+def surf(draw, eq_sol, balanced, db="phreeqc.dat"):
+    """Known finding on the pinned tree (C02): with an ion-association database a SURFACE that has an explicit
+    constant-thickness diffuse layer (-donnan / -diffuse_layer) and has never been equilibrated gets its diffuse-layer
+    water (area x thickness) *in addition to* the water of the solution when it first reacts: 0.67 mol H per 6 g of
+    layer appear from nowhere (with pitzer.dat, or with -donnan debye_lengths, the water is taken out of the solution).
+    Such surfaces are therefore always defined with -equilibrate for phreeqc.dat / wateq4f.dat (the initial-surface
+    calculation is not a reaction step); `dl_equil_forced` marks the cases where the draw asked for a plain definition."""
     model = draw(st.sampled_from(["no_edl", "ddl", "ddl", "donnan", "donnan", "diffuse"] if balanced else
                                  ["no_edl", "ddl", "ddl", "donnan", "donnan"]))
+    plain = not (draw(st.integers(0, 3)) > 0 or model == "diffuse")
     d = {"model": model, "w": draw(cg.logu(1e-5, 1e-2, 3)), "s": draw(st.one_of(st.just(0.0), cg.logu(1e-6, 1e-3, 3))),
          "area": draw(st.sampled_from([600.0, 600.0, 100.0, 50.0])), "grams": draw(cg.logu(0.1, 10.0, 3)),
-         "equil": eq_sol if (draw(st.integers(0, 3)) > 0 or model == "diffuse") else None}
+         "equil": None if plain else eq_sol}
+    if plain and model == "donnan" and db != "pitzer.dat":
+        d["equil"] = eq_sol
+        d["dl_equil_forced"] = True
     if model == "donnan":
         d["thick"] = draw(st.sampled_from([None, 1e-8, 1e-9, 1e-7]))
         d["oci"] = draw(st.integers(0, 4)) == 0
@@ -624,7 +634,7 @@ def case_strategy(draw, profile="c02", dbs=("phreeqc.dat",)):
             elif kd == "exch":
                 stp[kd] = draw(exch(db, eq_ref))
             elif kd == "surf":
-                stp[kd] = draw(surf(eq_ref, balanced and eq_ref != "prev"))
+                stp[kd] = draw(surf(eq_ref, balanced and eq_ref != "prev", db))
             elif kd == "gas":
                 stp[kd] = draw(gas(db, eq_ref, True))
                 stp[kd]["temp"] = temp0
